@@ -31,7 +31,7 @@ def declare(reg):
     )
     reg.specfn(
         "denote_upto", "S: list[MsgElt], mx: int, x: int, n: int", "bool",
-        "n > 0 and (elt_has(S[n - 1], mx, x) or denote_upto(S, mx, x, n - 1))", recursive=True,
+        "exists(lambda k: 0 <= k and k < n and elt_has(S[k], mx, x))",
         doc="x is denoted by one of the first n elements of S",
     )
     reg.specfn("denotes", "S: list[MsgElt], mx: int, x: int", "bool", "denote_upto(S, mx, x, len(S))")
